@@ -38,6 +38,13 @@ def build(v, strs=None):
         return {(_hashable(build(k, strs))): build(x, strs) for k, x in v["$dict"]}
     if "$modconst" in v:
         return getattr(importlib.import_module(v["$modconst"][0]), v["$modconst"][1])
+    if "$keymap" in v:
+        return {build(k, strs): build(x, strs) for k, x in v["$keymap"]}
+    if "$deque" in v:
+        import collections
+        return collections.deque(v["$deque"], maxlen=v.get("maxlen"))
+    if "$symset" in v:
+        return set()
     if "$opaque" in v:
         return Opaque(v["$opaque"])
     for tag in ("$rec", "$obj"):
